@@ -524,4 +524,47 @@ def runSub (fs : Fs) : SubProc → List SubOp → List (Except String Path)
     let r := getPipelinePathS fs p.sub n (p.last.map dirOf)
     r :: runSub fs { p.imported with last := match r with | .ok f => some f | .error _ => p.last } rest
 
+/-! ### pipeline names as ARBITRARY strings
+
+`get_pipeline_path`: `file_name = f'{pipeline_name}.yaml'` — the suffix is APPENDED to whatever the caller
+wrote: `build.v2` ↦ `build.v2.yaml`, `p.yaml` ↦ `p.yaml.yaml`, `a/` ↦ `a/.yaml`, `.hidden` ↦ `.hidden.yaml`;
+nothing of the name is cut off or replaced. `Path(file_name)` / `dir.joinpath(file_name)` then read that
+string the way pathlib does: split on `/`, empty and `.` segments dropped, `..` kept (the OS walks it);
+absolute iff it starts with `/`. The not-found text of `find_pipeline` carries `file_name` AS WRITTEN (not
+the pathlib reading), the absolute branch `str(Path(file_name))`. The layers above are the instance where
+the name has no empty / `.` segment (`fileParts`: `.yaml` appended to the last component —
+`fileParts_singleton`, `Props/C19.lean` `getPipelinePathN_eq_S`). A name starting with `//` (pathlib keeps
+exactly two leading slashes) is rejected by the driver. -/
+
+/-- `f'{pipeline_name}.yaml'` -/
+def fileNameOf (name : String) : String := name ++ ".yaml"
+
+/-- the existing layers build the file name of a one-component name the same way -/
+theorem fileParts_singleton (x : String) : fileParts [x] = [fileNameOf x] := rfl
+
+/-- split on `/` (on characters: structurally recursive, so it computes in proofs) -/
+def splitSlash : List Char → List Char → List (List Char)
+  | acc, [] => [acc.reverse]
+  | acc, c :: cs => if c = '/' then acc.reverse :: splitSlash [] cs else splitSlash (c :: acc) cs
+
+/-- the components pathlib keeps of a posix path string: empty and `.` segments are dropped -/
+def partsOfStr (s : String) : List String :=
+  ((splitSlash [] s.toList).map String.ofList).filter (fun x => !(x.isEmpty || x == "."))
+
+/-- `get_pipeline_path(pipeline_name, parent)` for any string `pipeline_name`, with `cwd_pipelines_dir = cwd/sub` -/
+def getPipelinePathN (fs : Fs) (sub : List String) (name : String) (parent : Option Path) : Except String Path :=
+  if (fileNameOf name).startsWith "/" then
+    if fs.isFile (partsOfStr (fileNameOf name)) then .ok (partsOfStr (fileNameOf name))
+    else .error (pathStr (partsOfStr (fileNameOf name)) ++ " does not exist.")
+  else
+    match findPipeline fs (partsOfStr (fileNameOf name)) (searchDirsS fs sub parent) with
+    | some p => .ok p
+    | none => .error (notFoundMsg (fileNameOf name) (searchDirsS fs sub parent))
+
+/-- … on any tree (`parent.resolve()` first, `.resolve()` on what is returned) -/
+def getPipelinePathNR (fs : Fs) (sub : List String) (name : String) (parent : Option Path) : Except String Path :=
+  match getPipelinePathN fs sub name (parent.map fs.realpath) with
+  | .ok p => .ok (fs.realpath p)
+  | .error e => .error e
+
 end Pypyr.Resolve
